@@ -328,8 +328,50 @@ func c02Corrupt(c *Ctx) {
 			}
 			name := append([]byte("@"), rec.Name...)
 			plus := []byte("+")
-			kind := r.IntN(5)
+			kind := r.IntN(6)
 			switch kind {
+			case 5:
+				// Coincidences of lengths: the qualities are short by exactly 1 + the length of the following one, two
+				// or three lines, so that a line break sits where the qualities of a well-formed record would end (a
+				// reader that jumps ahead by len(sequence) instead of looking for the end of the line lands on it); or
+				// the line break after the qualities is missing. Also with reads longer than the usual buffers.
+				if post.Len() == 0 {
+					extra := genFastqRecord(r, r.IntN(20))
+					recs = append(recs, extra)
+					extra.Write(&post)
+				}
+				following := bytes.SplitAfter(post.Bytes(), []byte("\n"))
+				nl := 1 + r.IntN(min(3, len(following)-1))
+				d := 0
+				for _, l := range following[:nl] {
+					d += len(l)
+				}
+				// d = 1 + (bytes of the nl lines without the last line break)
+				L := d + 1 + r.IntN(20)
+				switch r.IntN(3) {
+				case 1:
+					L = 4090 + r.IntN(12) + d
+				case 2:
+					L = pick(r, []int{65536, 65537, 70000, 131072}) + r.IntN(3)
+				}
+				rec = genFastqRecord(r, L)
+				recs[i] = rec
+				name = append([]byte("@"), rec.Name...)
+				var text []byte
+				if r.IntN(4) == 0 {
+					b := line(name, rec.Sequence, plus, rec.Quals)
+					cut := pre.Len() + len(name) + 1 + L + 1 + 2 + L // the line break after the qualities
+					text = append(append([]byte{}, b[:cut]...), b[cut+1:]...)
+					k.Input("kind", "line break after the qualities missing")
+				} else {
+					text = line(name, rec.Sequence, plus, rec.Quals[:L-d])
+					k.Input("kind", fmt.Sprintf("read of %d bases, qualities short by %d = 1 + the length of the following %d line(s)", L, d, nl))
+				}
+				k.Input("text", text)
+				fastqCorruptionCheck(k, "length coincidence", recs, i, text)
+				k.Count("corruptions", 1)
+				k.Count("length_coincidences", 1)
+				k.Nontrivial(text)
 			case 0: // leading '@' replaced, or deleted when the name does not itself begin with '@'
 				if r.IntN(3) == 0 && !bytes.HasPrefix(rec.Name, []byte("@")) {
 					text := line(rec.Name, rec.Sequence, plus, rec.Quals)
